@@ -7,6 +7,6 @@ CONSTANTS
   Uris = {"u1"}
   MaxText = 2
   Dump = FALSE
-INVARIANTS Valid LawsHold FollowingPrecedingConverse TraverseConsistent AllVariantsExtendPlain LevelOrderIsPermutation StringValueCompositional EqualityLaws
+INVARIANTS Valid LawsHold FollowingPrecedingConverse TraverseConsistent AllVariantsExtendPlain LevelOrderIsPermutation StringValueCompositional EqualityLaws L2AxesRefine
 CONSTRAINT TextBound
 CHECK_DEADLOCK FALSE
